@@ -63,6 +63,7 @@ enum I {
     Load(M, usize, M),
     Store(usize, M, Op),
     NoAccess(u8),
+    /// DEFFRAME attribute expressions (0) / DEFGATE AS PAULI-SUM coefficients (1): Coq `IExprs` kinds 10, 11
     Unscanned(u8, Vec<E>),
     DefGateSeq(Vec<Vec<E>>),
     Block(u8, Vec<E>, Vec<I>),
@@ -170,15 +171,14 @@ fn one_expr(es: &[E]) -> Expression {
     expr(es.first().unwrap_or(&E::Num(1)))
 }
 
-const EKINDS: [&str; 10] = [
+const EKINDS: [&str; 12] = [
     "KGate", "KDelay", "KSetFrequency", "KSetPhase", "KSetScale", "KShiftFrequency", "KShiftPhase",
-    "KPulse", "KDefWaveform", "KDefGateMatrix",
+    "KPulse", "KDefWaveform", "KDefGateMatrix", "KFrameDefinition", "KDefGatePauliSum",
 ];
 const NKINDS: [&str; 12] = [
     "KDeclaration", "KFence", "KHalt", "KWait", "KInclude", "KJump", "KLabel", "KNop", "KPragma", "KReset",
     "KSwapPhases", "KDefGatePermutation",
 ];
-const XKINDS: [&str; 2] = ["KFrameDefinition", "KDefGatePauliSum"];
 const BKINDS: [&str; 3] = ["KDefCal", "KDefCircuit", "KDefMeasureCal"];
 /// kinds that take exactly one expression
 fn single(k: u8) -> bool {
@@ -534,7 +534,7 @@ fn pi(i: &I) -> String {
         I::Load(d, s, o) => format!("ILoad {} {s} {}", pm(d), pm(o)),
         I::Store(d, o, s) => format!("IStore {d} {} {}", pm(o), po(s)),
         I::NoAccess(k) => format!("INoAccess {}", NKINDS[*k as usize]),
-        I::Unscanned(k, es) => format!("IUnscanned {} {}", XKINDS[*k as usize], pes(es)),
+        I::Unscanned(k, es) => format!("IExprs {} {}", EKINDS[10 + *k as usize], pes(es)),
         I::DefGateSeq(gs) => format!("IDefGateSeq {}", g::list(&gs.iter().map(|p| pes(p)).collect::<Vec<_>>())),
         I::Block(k, ps, body) => format!(
             "IBlock {} {} {}",
@@ -654,6 +654,8 @@ fn mutate(m: u32, i: &I, sigs: &[(usize, Sig)], obs: Obs, its: &mut Vec<(E, Vec<
         (5, I::Capture(..)) => {
             w.append(&mut c);
         }
+        // 7: the pre-fix behaviour: DEFFRAME / PAULI-SUM expressions not scanned
+        (7, I::Unscanned(..)) => r.clear(),
         // 6: comparison forgets its right operand
         (6, I::Comparison(_, _, l, Op::Ref(rr))) if rr.0 != l.0 => r.retain(|x| *x != rr.0 as u64),
         _ => {}
@@ -689,7 +691,7 @@ fn kind_name(i: &I) -> String {
         I::Load(..) => "load".into(),
         I::Store(..) => "store".into(),
         I::NoAccess(k) => format!("none-{}", &NKINDS[*k as usize][1..]),
-        I::Unscanned(k, _) => format!("unscanned-{}", &XKINDS[*k as usize][1..]),
+        I::Unscanned(k, _) => format!("exprs-{}", &EKINDS[10 + *k as usize][1..]),
         I::DefGateSeq(..) => "defgate-sequence".into(),
         I::Block(k, ..) => format!("block-{}", &BKINDS[*k as usize][1..]),
     }
@@ -762,13 +764,12 @@ fn one(ctx: &mut Ctx, sigs: &[(usize, Sig)], map: &ExternSignatureMap, i: &I) {
             .collect::<Vec<_>>(),
     );
     let coq = format!("({}, {}, {}, {})", psigs(sigs), pi(i), o, it);
-    // known finding: DEFFRAME attribute expressions / PAULI-SUM coefficients are not scanned
-    let known = match i {
-        I::Unscanned(_, es) if es.iter().any(has_ref) => Some("C27-unscanned-definition-exprs"),
-        _ => None,
-    };
-    let nontrivial = nontrivial || known.is_some();
-    ctx.run.case(coq, &desc, nontrivial, known);
+    // regression corpus of fixed finding C27-unscanned-definition-exprs (fix 5c78b87): DEFFRAME
+    // attribute expressions / PAULI-SUM coefficients containing a reference (no longer excluded)
+    if matches!(i, I::Unscanned(_, es) if es.iter().any(has_ref)) {
+        ctx.run.count("regression=C27-unscanned-definition-exprs");
+    }
+    ctx.run.case(coq, &desc, nontrivial, None);
 }
 
 // ---- generators -------------------------------------------------------------------------------
@@ -1070,7 +1071,7 @@ fn main() {
         "a case = (extern signatures, one instruction). Exhaustive part: CONVERT/EXCHANGE/MOVE/6 binary-logic/4 \
          arithmetic/2 unary ops/JUMP-WHEN/JUMP-UNLESS/MEASURE over 6 references (3 regions x 2 indices) and \
          literal-int / literal-real / reference operands; 5 comparisons, LOAD, STORE over 4 references (+ an \
-         undeclared region); the 12 access-free kinds; DEFFRAME attribute expressions and PAULI-SUM coefficients (known finding class when they contain a reference); every expression of depth <= 1 over {number, pi, variable, \
+         undeclared region); the 12 access-free kinds; DEFFRAME attribute expressions and PAULI-SUM coefficients (regression cases of fixed finding C27-unscanned-definition-exprs); every expression of depth <= 1 over {number, pi, variable, \
          a[0], b[0], c[1]} in each of the 10 expression-carrying kinds, CAPTURE, RAW-CAPTURE, DEFGATE AS SEQUENCE \
          and DEFCAL parameters; CALL against every signature with <= 2 parameters over {mut,const} x \
          {scalar,vector} with/without return x argument lists of length 0..3 over {identifier, reference x2, \
